@@ -17,15 +17,6 @@ pub fn order_to_u8(o: common::GlueOrder) -> u8 {
     }
 }
 
-pub fn u8_to_order(o: u8) -> common::GlueOrder {
-    match o {
-        0 => common::GlueOrder::Normal,
-        1 => common::GlueOrder::Fil,
-        2 => common::GlueOrder::Fill,
-        _ => common::GlueOrder::Filll,
-    }
-}
-
 pub fn glue_to_spec(g: &common::Glue) -> GlueSpec {
     GlueSpec {
         width: g.width.0,
@@ -33,16 +24,6 @@ pub fn glue_to_spec(g: &common::Glue) -> GlueSpec {
         stretch_order: order_to_u8(g.stretch_order),
         shrink: g.shrink.0,
         shrink_order: order_to_u8(g.shrink_order),
-    }
-}
-
-pub fn spec_to_glue(s: &GlueSpec) -> common::Glue {
-    common::Glue {
-        width: Scaled(s.width),
-        stretch: Scaled(s.stretch),
-        stretch_order: u8_to_order(s.stretch_order),
-        shrink: Scaled(s.shrink),
-        shrink_order: u8_to_order(s.shrink_order),
     }
 }
 
